@@ -838,6 +838,13 @@ def _add_ext_stream():
         return [["gen", seed, 2000 if tier == "quick" else 60000, "ext"]]
     PROPS["C07"]["streams"].append(Stream("ext", "rt", "rt-C07", gen, nontrivial=rt_nontrivial, shape=rt_shape,
                                           shrink=sexp_shrinks, compare_model=False))
+    def gen2(tier, seed):
+        return [["gen", seed, 6000 if tier == "quick" else 300000, "complete"]]
+    PROPS["C07"]["streams"].append(Stream("complete", "rt", "rt-C07", gen2, nontrivial=rt_nontrivial, shape=rt_shape,
+                                          shrink=sexp_shrinks, compare_model=False))
+    PROPS["C07"]["rule"] += ("; complete stream: the same completeness clause on the MODELLED fragment (task programs and "
+                             "combinators of the DSL, a third of them built around a request future that is polled once and then "
+                             "moved to another task), any history, then every request dropped twice over and a final poll")
     PROPS["C07"]["rule"] += ("; ext stream (no exact model): builder chains in which a stream stage follows a stream "
                              "(StreamBuilder::then_stream = flatten_unordered, incl. follow-up streams that start with a request), alone "
                              "and under then/all/map_event, histories ending with every request dropped; the oracle tracks from the "
@@ -873,13 +880,19 @@ rt_prop("C07", ["task", "cancel", "comb"],
         "serials_fresh_direct / serials_fresh_core (Lemmas/Fresh*.lean: every operation of the model, every poll incl. hosted "
         "commands at every nesting depth, the executor loops, command building, the shell's operations, the Core's executor and "
         "event loop preserve `every waker serial in the world is below nextSerial`; so the serial a poll gets is held by "
-        "nothing, and World.holders models Arc::strong_count of THAT poll's waker). Completeness over whole commands is "
-        "stated (evict_complete_goal), checked per step by the correspondence on the modelled fragment (`d`, `t` counters). It is "
-        "FALSE on the real code outside that fragment: a task that retains a clone of its own waker (FuturesUnordered / "
+        "nothing, and World.holders models Arc::strong_count of THAT poll's waker). COMPLETENESS OVER WHOLE COMMANDS IS FALSE, on the "
+        "model and on the code: evict_complete_anywhere_false / completeness_fails_with_handoff (kernel-evaluated witness, found while "
+        "trying to prove the goal): a task that polls a request future once and then moves it to a spawned task, while it stays "
+        "pending on a request the shell dropped, is kept by run_task (a clone of its waker sits in the moved request's channel) "
+        "and stranded when the new owner's poll replaces that registration — never polled, never evicted, is_done() false after "
+        "every request is resolved or dropped. Replayed on the implementation: known finding "
+        "handed-off-request-strands-first-poller (corpus + `complete` stream). Without handoff completeness is stated "
+        "(evict_complete_handoff_free_goal; no counterexample in the `complete` stream) and not proved. It is also FALSE on the "
+        "real code outside the modelled fragment: a task that retains a clone of its own waker (FuturesUnordered / "
         "flatten_unordered behind StreamBuilder::then_stream on a stream) and then waits on a dropped one-shot request is never evicted "
         "— known finding retaining-combinator-never-evicted, exhibited on every run by the ext stream (public builder API, oracle "
         "clause evaluated on the implementation alone).",
-        goals=["evict_complete_goal"])
+        goals=["evict_complete_handoff_free_goal"])
 _add_ext_stream()
 rt_prop("C09", ["bridge", "hosts"],
         "Proof (Props/C09.lean): the bridge simulates the typed core step by step — event (bridge_simulates_core_event) and response "
